@@ -62,6 +62,17 @@ def gen(rng):
             if len(nm.encode('utf-8')) > 240:
                 continue
             G.add_trashed(steps, G.home_trash_of(env), nm, TG.pct(home + '/old/' + nm), '2020-01-01T00:00:00', 'file', tag='old')
+    elif rng.random() < 0.3:
+        # a payload WITHOUT info under the very name (what an interrupted purge or put leaves behind): it occupies the name -
+        # whatever the probe for it is answered, it is not written over
+        for a in args:
+            nm = posixpath.basename(a)
+            if len(nm.encode('utf-8')) > 240:
+                continue
+            ht_ = G.home_trash_of(env)
+            steps.append(['d', ht_ + '/info', 0o700])
+            steps.append(['d', ht_ + '/files', 0o700])
+            steps.append(rng.choice([['f', ht_ + '/files/' + nm, 'PRECIOUS payload without info', 0o644], ['l', ht_ + '/files/' + nm, 'nowhere-at-all']]))
     opts = []
     if rng.random() < 0.25:
         # -f only excuses arguments that do not exist: an entry that is there and could not be trashed is still a failure
